@@ -56,10 +56,11 @@ def run(tier: str) -> int:
     r.rule = ("instance obligations: every piecewise_* parameter at every date its resolved value changes "
               "(regenerated, kernel-decided); T2: real parser output vs Lean parse at those dates (2^-40), real "
               "piecewise_polynomial on exact Fractions vs Lean eval at thresholds, ±1e-9, ±0.01 and random points "
-              "(exact); search: the real float evaluator on a dense grid + threshold neighbours against "
+              "(exact), the same with rates_multiplier in {1, 4/5, random} vs Lean evalMul (exact) and, for continuous schedules, vs "
+              "ic0 + m (value - ic0); search: the real float evaluator on a dense grid + threshold neighbours against "
               "monotonicity / convexity / soli bound / exact value")
     emit_lean.regenerate()
-    common.build_and_audit(r, ["C18", "C18Inst"], leanchecker=not quick)
+    common.build_and_audit(r, ["C18", "C18Mul", "C18Inst"], leanchecker=not quick)
     rnd = common.rng("C18")
     plist = emit_more.piecewise_params()
     dates = sorted({d for _, _, _, _, ds in plist for d in ds})
@@ -73,6 +74,7 @@ def run(tier: str) -> int:
     models = paramsio.model_envs(dates)
     n_sched = 0
     pw_ops, pw_real, pw_meta = [], [], []
+    mul_ops, mul_meta = [], []
     for o, (kind, env) in zip(dates, models):
         d = datetime.date.fromordinal(o)
         try:
@@ -103,7 +105,46 @@ def run(tier: str) -> int:
                            "intercepts": [corr.fstr(q) for q in v["intercepts_at_lower_thresholds"]],
                            "x": [corr.fstr(x) for x in xs]})
             pw_meta.append((g, p, d, v, rv, xs))
+            # the `rates_multiplier` branch of the evaluator (the code rebuilds the intercepts from intercepts[0])
+            for mult in (Fraction(1), Fraction(4, 5), Fraction(rnd.randint(1, 300), 100)):
+                mul_ops.append({**pw_ops[-1], "mult": corr.fstr(mult)})
+                mul_meta.append((g, p, d, v, xs, mult))
     outs = corr.model_results(pw_ops) if pw_ops else []
+    mul_outs = corr.model_results(mul_ops) if mul_ops else []
+    bad_mul = 0
+    for (g, p, d, v, xs, mult), (k, m) in zip(mul_meta, mul_outs):
+        thr = np.array([float(t) if isinstance(t, float) else Fraction(t) for t in v["thresholds"]], dtype=object)
+        rates = np.array([[Fraction(q) for q in row] for row in v["rates"]], dtype=object)
+        ic = np.array([Fraction(q) for q in v["intercepts_at_lower_thresholds"]], dtype=object)
+        continuous = all(independent_value(v, Fraction(t)) == independent_piece_limit(v, i)
+                         for i, t in enumerate(v["thresholds"]) if not isinstance(t, float) and i >= 2) and \
+            Fraction(v["intercepts_at_lower_thresholds"][1 if len(v["intercepts_at_lower_thresholds"]) > 1 else 0]) == \
+            Fraction(v["intercepts_at_lower_thresholds"][0])
+        for x, mv in zip(xs, m):
+            mv = Fraction(mv)
+            try:
+                ev = piecewise_polynomial(x, thresholds=thr, rates=rates, intercepts_at_lower_thresholds=ic,
+                                          rates_multiplier=mult)
+            except Exception as e:  # noqa: BLE001
+                ev = e
+            r.case({"eval-mult": [g, p, d.isoformat(), str(mult)], "x": str(x)})
+            r.traces += 1
+            if isinstance(ev, Exception) or Fraction(ev) != mv:
+                bad_mul += 1
+                r.broke("correspondence", f"piecewise_polynomial(rates_multiplier) vs Piecewise.evalMul ({g}.{p} at {d})",
+                        f"x={x}, multiplier {mult}: code {ev!r}, model {mv}")
+                # the property: for a continuous schedule the value is ic0 + m * (schedule value - ic0)
+                if continuous and not isinstance(ev, Exception):
+                    ic0 = Fraction(v["intercepts_at_lower_thresholds"][0])
+                    exp = ic0 + mult * (independent_value(v, x) - ic0)
+                    if Fraction(ev) != exp:
+                        r.hit({"schedule": f"{g}.{p}", "kind": "evaluation-with-multiplier-differs-from-schedule"},
+                              f"piecewise_polynomial({x}, rates_multiplier={mult}) for {g}.{p} at {d} returns {ev}; the schedule "
+                              f"with rates scaled by {mult} has the value {exp}",
+                              {"date": d.isoformat(), "x": str(x), "multiplier": str(mult), "observed": str(ev), "expected": str(exp)})
+                break
+    r.extra.setdefault("correspondence", {})["evaluator with rates_multiplier: code vs Piecewise.evalMul"] = {
+        "cases": len(mul_meta), "disagreements": bad_mul}
     bad_eval = 0
     for (g, p, d, v, rv, xs), (k, m) in zip(pw_meta, outs):
         thr = np.array([float(t) if isinstance(t, float) else Fraction(t) for t in v["thresholds"]], dtype=object)
@@ -248,6 +289,15 @@ def independent_value(v, x):
     if k == 0:
         return ic
     inc = x - Fraction(thr[k])
+    return ic + sum(Fraction(row[k]) * inc ** (pw + 1) for pw, row in enumerate(v["rates"]))
+
+
+def independent_piece_limit(v, i):
+    """value of piece i-1 at its upper end thresholds[i] (i >= 2): what continuity at thresholds[i] requires"""
+    thr = v["thresholds"]
+    k = i - 1
+    ic = Fraction(v["intercepts_at_lower_thresholds"][k])
+    inc = Fraction(thr[i]) - Fraction(thr[k])
     return ic + sum(Fraction(row[k]) * inc ** (pw + 1) for pw, row in enumerate(v["rates"]))
 
 
